@@ -67,6 +67,48 @@ mod verif_witness {
         let _ = std::fs::remove_dir_all(d);
     }
 
+    /// "`--check` exits 0 exactly when a normal run would change nothing": files that differ from the generated content
+    /// only slightly — a line-wise prefix or extension of it, other line endings, same length, a difference far into a
+    /// large file, an empty file — are all outdated: check mode reports each one, update mode replaces each one.
+    #[test]
+    fn every_near_miss_of_the_generated_content_is_outdated() {
+        let generated: Vec<u8> = b"[package]\nname = \"application\"\nedition = \"2024\"\n\n[dependencies]\nhttp = \"1\"\npavex = \"0.2\"\n".to_vec();
+        let text = String::from_utf8(generated.clone()).unwrap();
+        let mut big = vec![b'x'; 3 * 8192 + 17]; let big_generated = big.clone(); let n = big.len(); big[n - 3] = b'y';
+        let mut big_mid = big_generated.clone(); big_mid[8192 + 5] = b'y';
+        let variants: Vec<(&str, Vec<u8>, Vec<u8>)> = vec![
+            ("empty file", vec![], generated.clone()),
+            ("line-wise prefix (last dependency missing)", text.lines().take(6).map(|l| format!("{l}\n")).collect::<String>().into_bytes(), generated.clone()),
+            ("line-wise extension (leftover trailing dependency)", format!("{text}serde = \"1\"\n").into_bytes(), generated.clone()),
+            ("CRLF line endings", text.replace('\n', "\r\n").into_bytes(), generated.clone()),
+            ("no trailing newline", text.trim_end().as_bytes().to_vec(), generated.clone()),
+            ("same length, other edition", text.replace("2024", "2021").into_bytes(), generated.clone()),
+            ("same length, last byte differs", { let mut v = generated.clone(); *v.last_mut().unwrap() = b' '; v }, generated.clone()),
+            ("large file, difference in the last partial block", big, big_generated.clone()),
+            ("large file, difference in the second block", big_mid, big_generated.clone()),
+        ];
+        let d = dir("nearmiss");
+        for (i, (what, on_disk, want)) in variants.iter().enumerate() {
+            let f = d.join(format!("f{i}"));
+            std::fs::write(&f, on_disk).unwrap(); let t = age(&f);
+            let mut c = AppWriter::check_mode();
+            c.persist_if_changed(&f, want).unwrap();
+            assert!(c.verify().is_err(), "{what}: --check exits 0 although a normal run would rewrite the file");
+            assert_eq!((std::fs::read(&f).unwrap(), mtime(&f)), (on_disk.clone(), t), "{what}: --check touched the file");
+            let mut u = AppWriter::update_mode();
+            u.persist_if_changed(&f, want).unwrap();
+            assert_eq!(&std::fs::read(&f).unwrap(), want, "{what}: a normal run left the stale content in place");
+            let t2 = age(&f);
+            u.persist_if_changed(&f, want).unwrap();
+            assert_eq!(mtime(&f), t2, "{what}: re-running on unchanged content rewrote the file");
+            let mut c = AppWriter::check_mode();
+            c.persist_if_changed(&f, want).unwrap();
+            assert!(c.verify().is_ok(), "{what}: --check fails right after a normal run");
+        }
+        println!("VERIF-BOUNDED test=every_near_miss_of_the_generated_content_is_outdated evaluations={} bound=hand-picked near misses of the generated content (prefix, extension, CRLF, same length, large-file tail/middle, empty)", variants.len());
+        let _ = std::fs::remove_dir_all(d);
+    }
+
     /// The tail of `pavexc_cli::generate` for `--check --diagnostics <f>`, transcribed call for call (main.rs, from the
     /// choice of the writer on; code generation itself is skipped).  Before fix 'C10 diagnostics' the diagnostics were
     /// persisted before the writer was chosen, through `persist_if_changed` directly.
